@@ -12,6 +12,15 @@ package main
 // gauge per path counted inside the wrapped function, and -- read with reflect+unsafe from the
 // private tables -- (processedCounter, len(orderedRequest)) per path and (cur, len(waiters)) of
 // the semaphore.
+//
+// Delayed goroutines (the order "a waiter's context is cancelled, and something else happens
+// before the waiter's goroutine has reacted"): the scheduling point "ep-ctx-done" of the limiter
+// (build tag verif; acquireEndpoint, after the select took <-ctx.Done(), before cancelEndpoint)
+// parks the goroutine of a request that the driver marked:
+//   H<r>      r's context is cancelled, r notices it and is parked at the scheduling point
+//   u<r>      r's goroutine continues
+// A parked goroutine is at rest; it is recognised in the stack dump like the others
+// ([chan receive] inside c16HoldPoint), never by timing.
 
 import (
 	"bytes"
@@ -46,10 +55,11 @@ const (
 	c16ErrTot   = 6
 	c16Bad      = 7 // panic, unexpected result
 	c16Hang     = 8 // goroutine never came to rest
+	c16Cancelling = 10 // parked at the scheduling point "ep-ctx-done" (cancelled, noticed, not yet acted)
 )
 
 type c16Ev struct {
-	kind byte // 'a' 'A' 'c' 'f'
+	kind byte // 'a' 'A' 'c' 'f' 'H' 'u'
 	r, k int
 }
 
@@ -68,6 +78,10 @@ func (e c16Ev) coq() string {
 		return fmt.Sprintf("EArrC %d %d", e.r, e.k)
 	case 'c':
 		return fmt.Sprintf("ECan %d", e.r)
+	case 'H':
+		return fmt.Sprintf("ECanH %d", e.r)
+	case 'u':
+		return fmt.Sprintf("ERes %d", e.r)
 	}
 	return fmt.Sprintf("EFin %d", e.r)
 }
@@ -101,6 +115,9 @@ type c16Req struct {
 	gid      int64
 	done     atomic.Int32 // 0 = Do has not returned, else a c16Done*/c16Err*/c16Bad code
 	launched bool
+	hold     atomic.Bool   // park this request's goroutine at the scheduling point "ep-ctx-done"
+	resume   chan struct{} // closed by the driver: the parked goroutine continues
+	resumed  bool
 }
 
 type c16Obs struct {
@@ -141,6 +158,40 @@ type c16Run struct {
 	maxTot  atomic.Int64
 	yields  func() int // free-running mode: how often the wrapped function yields before returning
 	extra   int        // table entries under unknown keys (must stay 0)
+	byGid   sync.Map   // goroutine id -> *c16Req (forced histories)
+}
+
+// limiter -> run, for the scheduling-point callback
+var c16Runs sync.Map
+
+// c16Yield is installed as the limiter's scheduling-point callback.  Forced histories: the
+// goroutine of a request marked by the driver parks here.  Free-running cases: the goroutine yields
+// a few times, which widens the window between "context done" and cancelEndpoint.
+func c16Yield(lim *limitparallelrequests.LimitParallelRequests, point string) {
+	if point != "ep-ctx-done" {
+		return
+	}
+	v, ok := c16Runs.Load(lim)
+	if !ok {
+		return
+	}
+	h := v.(*c16Run)
+	if y := h.yields; y != nil {
+		for i := y(); i > 0; i-- {
+			runtime.Gosched()
+		}
+		return
+	}
+	if rv, ok := h.byGid.Load(curGid()); ok {
+		if r := rv.(*c16Req); r.hold.Load() {
+			c16HoldPoint(r)
+		}
+	}
+}
+
+//go:noinline
+func c16HoldPoint(r *c16Req) {
+	<-r.resume
 }
 
 func c16Path(k int) string { return "p" + strconv.Itoa(k) }
@@ -154,6 +205,7 @@ func newC16Run(tot, epl int64, nk int) *c16Run {
 		h.keyHash = append(h.keyHash, crc64.Checksum([]byte(c16Path(k)), tab))
 	}
 	h.lim = limitparallelrequests.New(tot, epl, h.c16do, h.c16doObserve)
+	c16Runs.Store(h.lim, h)
 	return h
 }
 
@@ -212,7 +264,7 @@ func (h *c16Run) newReq(id, key int, precancelled bool) *c16Req {
 	m := pool.NewMessage(ctx)
 	m.SetCode(codes.GET)
 	_ = m.SetPath("/" + c16Path(key))
-	r := &c16Req{id: id, key: key, msg: m, resp: pool.NewMessage(context.Background()), cancel: cancel, finish: make(chan struct{})}
+	r := &c16Req{id: id, key: key, msg: m, resp: pool.NewMessage(context.Background()), cancel: cancel, finish: make(chan struct{}), resume: make(chan struct{})}
 	h.byMsg.Store(m, r)
 	for len(h.reqs) <= id {
 		h.reqs = append(h.reqs, nil)
@@ -269,6 +321,7 @@ func (h *c16Run) launch(r *c16Req) {
 	r.launched = true
 	go func() {
 		r.gid = curGid()
+		h.byGid.Store(r.gid, r)
 		close(started)
 		h.call(r)
 	}()
@@ -325,6 +378,8 @@ func c16Classify(r *c16Req, done int32, dump map[int64][2]string) int {
 	switch {
 	case state == "chan receive" && strings.Contains(body, ".c16do("):
 		return c16InFlight
+	case state == "chan receive" && strings.Contains(body, ".c16HoldPoint(") && strings.Contains(body, ").acquireEndpoint("):
+		return c16Cancelling
 	case state == "select" && strings.Contains(body, "semaphore.(*Weighted).Acquire("):
 		return c16WaitTot
 	case state == "select" && strings.Contains(body, ").acquireEndpoint("):
@@ -424,6 +479,17 @@ func (h *c16Run) apply(e c16Ev, n int) c16Obs {
 			h.reqs[e.r].finished = true
 			close(h.reqs[e.r].finish)
 		}
+	case 'H':
+		if e.r < len(h.reqs) && h.reqs[e.r] != nil {
+			h.reqs[e.r].hold.Store(true)
+			h.reqs[e.r].cancel()
+		}
+	case 'u':
+		if e.r < len(h.reqs) && h.reqs[e.r] != nil && !h.reqs[e.r].resumed {
+			h.reqs[e.r].hold.Store(false)
+			h.reqs[e.r].resumed = true
+			close(h.reqs[e.r].resume)
+		}
 	}
 	return h.settle(n)
 }
@@ -432,13 +498,19 @@ func (h *c16Run) apply(e c16Ev, n int) c16Obs {
 func (h *c16Run) abandon() {
 	for _, r := range h.reqs {
 		if r != nil {
+			r.hold.Store(false)
 			r.cancel()
 			if !r.finished {
 				r.finished = true
 				close(r.finish)
 			}
+			if !r.resumed {
+				r.resumed = true
+				close(r.resume)
+			}
 		}
 	}
+	c16Runs.Delete(h.lim)
 }
 
 type c16Step struct {
@@ -467,7 +539,7 @@ func c16DescEvents(steps []c16Step) string {
 
 func c16Bad8(o c16Obs) bool {
 	for _, s := range o.sts {
-		if s >= c16Bad {
+		if s >= c16Bad && s != c16Cancelling {
 			return true
 		}
 	}
@@ -483,17 +555,19 @@ type c16Cfg struct {
 	keys     []int // path of request i
 	maxArrC  int   // how many requests may arrive with a cancelled context
 	cancelIF bool  // also cancel requests that are inside the wrapped function
+	maxHold  int   // how many cancellations of a waiter may be "delayed" (H<r> ... u<r>)
 }
 
 // runHistory drives one history; at each point the enabled events are: the next arrival (plain
-// or pre-cancelled), cancel of any blocked request, finish of any request in flight.
+// or pre-cancelled), cancel of any blocked request, finish of any request in flight, delayed
+// cancel of a request that waits for its path, resume of a delayed one.
 func c16RunHistory(cfg c16Cfg, choose c16Chooser) ([]c16Step, []int) {
 	n := len(cfg.keys)
 	h := newC16Run(cfg.tot, cfg.epl, cfg.nk)
 	defer h.abandon()
 	var steps []c16Step
 	var counts []int
-	next, arrC := 0, 0
+	next, arrC, holds := 0, 0, 0
 	cancelled := make([]bool, n)
 	o := h.settle(n)
 	for depth := 0; ; depth++ {
@@ -508,6 +582,11 @@ func c16RunHistory(cfg c16Cfg, choose c16Chooser) ([]c16Step, []int) {
 			switch o.sts[r] {
 			case c16WaitEp, c16WaitTot:
 				en = append(en, c16Ev{'c', r, 0})
+				if o.sts[r] == c16WaitEp && holds < cfg.maxHold {
+					en = append(en, c16Ev{'H', r, 0})
+				}
+			case c16Cancelling:
+				en = append(en, c16Ev{'u', r, 0})
 			case c16InFlight:
 				en = append(en, c16Ev{'f', r, 0})
 				if cfg.cancelIF && !cancelled[r] {
@@ -532,6 +611,9 @@ func c16RunHistory(cfg c16Cfg, choose c16Chooser) ([]c16Step, []int) {
 			arrC++
 		case 'c':
 			cancelled[e.r] = true
+		case 'H':
+			cancelled[e.r] = true
+			holds++
 		}
 		o = h.apply(e, n)
 		steps = append(steps, c16Step{e, o})
@@ -562,9 +644,19 @@ func c16Emit(e *Emitter, epl, tot int64, n, nk int, steps []c16Step, tag string)
 	coq := fmt.Sprintf("H %s %s %d %d %s", coqZ(epl), coqZ(tot), n, nk, c16CoqSteps(steps))
 	desc := fmt.Sprintf("h %d %d %d %d %s", epl, tot, n, nk, c16DescEvents(steps))
 	// non-trivial: some request had to wait and a cancellation or completion happened while another waited
-	waited, cancelWhileQueued := false, false
+	waited, cancelWhileQueued, delayed, moveWhileDelayed := false, false, false, false
 	var prev c16Obs
 	for i, s := range steps {
+		if s.e.kind == 'H' {
+			delayed = true
+		}
+		if i > 0 && s.e.kind != 'H' && s.e.kind != 'u' {
+			for _, x := range prev.sts {
+				if x == c16Cancelling {
+					moveWhileDelayed = true
+				}
+			}
+		}
 		for _, x := range s.o.sts {
 			if x == c16WaitEp || x == c16WaitTot {
 				waited = true
@@ -581,6 +673,12 @@ func c16Emit(e *Emitter, epl, tot int64, n, nk int, steps []c16Step, tag string)
 	}
 	if waited {
 		buckets = append(buckets, "someone-waited")
+	}
+	if delayed {
+		buckets = append(buckets, "cancel-of-waiter-delayed")
+	}
+	if moveWhileDelayed {
+		buckets = append(buckets, "event-while-cancelled-waiter-delayed")
 	}
 	w := 1 + len(steps)/8
 	e.AddW(coq, desc, waited, w, buckets...)
@@ -754,9 +852,11 @@ func c16Free(e *Emitter, epl, tot int64, n, nk int, seed uint64) {
 }
 
 func runC16(a runArgs) error {
+	limitparallelrequests.VerifSetYield(c16Yield)
+	defer limitparallelrequests.VerifSetYield(nil)
 	e := NewEmitter("C16", "Limiter.Run")
 	e.ShardSize = 400
-	e.Rule = "A case is one event history (arrive / arrive-with-cancelled-context / cancel / finish) forced on a fresh LimitParallelRequests, observed after every event at rest (status of every request from a stop-the-world stack snapshot, gauge inside the wrapped function per path, (processedCounter, queue length) per path and (cur, waiters) of the semaphore read reflectively); distinct = distinct (limits, paths, event list); non-trivial = at least one request had to wait. Free-running cases: n goroutines with random cancellations, maxima of the gauges, idle check and a forced probe afterwards."
+	e.Rule = "A case is one event history (arrive / arrive-with-cancelled-context / cancel / finish / cancel of a waiter whose goroutine is then parked at the scheduling point ep-ctx-done / resume of that goroutine) forced on a fresh LimitParallelRequests, observed after every event at rest (status of every request from a stop-the-world stack snapshot, gauge inside the wrapped function per path, (processedCounter, queue length) per path and (cur, waiters) of the semaphore read reflectively); distinct = distinct (limits, paths, event list); non-trivial = at least one request had to wait. Free-running cases: n goroutines with random cancellations, maxima of the gauges, idle check and a forced probe afterwards."
 	rng := NewRng(a.seed)
 	atoi := func(s string) int { v, _ := strconv.Atoi(s); return v }
 	if a.only != "" {
@@ -781,13 +881,18 @@ func runC16(a runArgs) error {
 	t0 := time.Now()
 	exhaustive := map[string]int{}
 	complete := true
+	maxHold := 0
 	enum := func(n, nk int, epls, tots []int64, maxArrC int, limit int) {
+		tag, cnt := fmt.Sprintf("exhaustive-%d-requests", n), fmt.Sprintf("requests=%d", n)
+		if maxHold > 0 {
+			tag, cnt = fmt.Sprintf("exhaustive-delayed-cancel-%d-requests", n), fmt.Sprintf("delayed-cancel requests=%d", n)
+		}
 		for _, keys := range c16KeyAssignments(n, nk) {
 			for _, epl := range epls {
 				for _, tot := range tots {
-					cfg := c16Cfg{epl: epl, tot: tot, nk: nk, keys: keys, maxArrC: maxArrC}
-					c, done := c16Enumerate(e, cfg, limit, fmt.Sprintf("exhaustive-%d-requests", n))
-					exhaustive[fmt.Sprintf("requests=%d", n)] += c
+					cfg := c16Cfg{epl: epl, tot: tot, nk: nk, keys: keys, maxArrC: maxArrC, maxHold: maxHold}
+					c, done := c16Enumerate(e, cfg, limit, tag)
+					exhaustive[cnt] += c
 					if !done {
 						complete = false
 					}
@@ -808,6 +913,25 @@ func runC16(a runArgs) error {
 		enum(4, 2, []int64{1, 2}, []int64{1, 2, 3}, 0, 0)
 		enum(5, 2, []int64{1, 2}, []int64{1, 2, 3}, 0, 25)
 	}
+	// the same with cancellations of a waiter whose goroutine is delayed (H<r> ... u<r>): every
+	// order of the other events in between
+	if a.tier == "thorough" {
+		maxHold = 2
+		enum(2, 1, []int64{1, 2}, []int64{1, 0}, 0, 0)
+		enum(3, 2, []int64{1, 2}, []int64{1, 2, 0}, 0, 0)
+		maxHold = 1
+		enum(4, 2, []int64{1, 2}, []int64{2, 0}, 0, 0)
+		enum(5, 1, []int64{1, 2}, []int64{0}, 0, 0)
+	} else {
+		maxHold = 2
+		enum(2, 1, []int64{1}, []int64{0}, 0, 0)
+		enum(3, 1, []int64{1, 2}, []int64{2, 0}, 0, 0)
+		maxHold = 1
+		enum(3, 2, []int64{1}, []int64{0}, 0, 0)
+		enum(4, 1, []int64{1}, []int64{0}, 0, 0)
+		enum(4, 1, []int64{2}, []int64{0}, 0, 150)
+	}
+	maxHold = 0
 	e.Extra["exhaustive_histories"] = exhaustive
 	e.Extra["exhaustive"] = complete
 	e.Extra["enumeration_s"] = time.Since(t0).Seconds()
@@ -824,6 +948,9 @@ func runC16(a runArgs) error {
 			keys[j] = rng.Intn(nk)
 		}
 		cfg := c16Cfg{epl: int64([]int{1, 1, 2, 2, 3, 0}[rng.Intn(6)]), tot: int64([]int{1, 2, 2, 3, 4, 0}[rng.Intn(6)]), nk: nk, keys: keys, maxArrC: rng.Intn(3), cancelIF: rng.Chance(30)}
+		if rng.Chance(40) {
+			cfg.maxHold = 1 + rng.Intn(2)
+		}
 		c16Random(e, rng, cfg, "random")
 	}
 	for i := 0; i < nfree; i++ {
